@@ -31,6 +31,8 @@ pub enum Msg {
     Definition { doc: usize, character: u32 },
     Symbols { doc: usize },
     Tokens { doc: usize },
+    References { doc: usize, character: u32, declaration: bool },
+    Formatting { doc: usize },
 }
 
 impl Msg {
@@ -43,11 +45,21 @@ impl Msg {
             | Msg::Hover { doc, .. }
             | Msg::Definition { doc, .. }
             | Msg::Symbols { doc }
-            | Msg::Tokens { doc } => *doc,
+            | Msg::Tokens { doc }
+            | Msg::References { doc, .. }
+            | Msg::Formatting { doc } => *doc,
         }
     }
     pub fn is_request(&self) -> bool {
-        matches!(self, Msg::Hover { .. } | Msg::Definition { .. } | Msg::Symbols { .. } | Msg::Tokens { .. })
+        matches!(
+            self,
+            Msg::Hover { .. }
+                | Msg::Definition { .. }
+                | Msg::Symbols { .. }
+                | Msg::Tokens { .. }
+                | Msg::References { .. }
+                | Msg::Formatting { .. }
+        )
     }
     pub fn label(&self) -> String {
         match self {
@@ -60,6 +72,10 @@ impl Msg {
             | Msg::Definition { doc, character } => format!("definition {}:{character}", DOCS[*doc]),
             | Msg::Symbols { doc } => format!("symbols {}", DOCS[*doc]),
             | Msg::Tokens { doc } => format!("tokens {}", DOCS[*doc]),
+            | Msg::References { doc, character, declaration } => {
+                format!("references {}:{character}{}", DOCS[*doc], if *declaration { "+decl" } else { "" })
+            }
+            | Msg::Formatting { doc } => format!("formatting {}", DOCS[*doc]),
         }
     }
     pub fn to_json(&self) -> Value {
@@ -72,6 +88,10 @@ impl Msg {
             | Msg::Definition { doc, character } => json!({"m": "definition", "doc": doc, "character": character}),
             | Msg::Symbols { doc } => json!({"m": "symbols", "doc": doc}),
             | Msg::Tokens { doc } => json!({"m": "tokens", "doc": doc}),
+            | Msg::References { doc, character, declaration } => {
+                json!({"m": "references", "doc": doc, "character": character, "declaration": declaration})
+            }
+            | Msg::Formatting { doc } => json!({"m": "formatting", "doc": doc}),
         }
     }
     pub fn from_json(value: &Value) -> Option<Self> {
@@ -85,6 +105,12 @@ impl Msg {
             | "definition" => Msg::Definition { doc, character: value["character"].as_u64()? as u32 },
             | "symbols" => Msg::Symbols { doc },
             | "tokens" => Msg::Tokens { doc },
+            | "references" => Msg::References {
+                doc,
+                character: value["character"].as_u64()? as u32,
+                declaration: value["declaration"].as_bool().unwrap_or(false),
+            },
+            | "formatting" => Msg::Formatting { doc },
             | _ => return None,
         })
     }
@@ -278,7 +304,7 @@ pub fn generate(seed: u64, thorough: bool) -> GeneratedLsp {
         for _ in 0..size {
             let doc = *rng.pick(&[0, 0, 0, 1, 1, 2]);
             let message = if !open[doc] {
-                match rng.weighted(&[8, 1, 1, 1]) {
+                match rng.weighted(&[8, 1, 1, 1, 1]) {
                     | 0 => {
                         version[doc] += 1;
                         open[doc] = true;
@@ -288,10 +314,11 @@ pub fn generate(seed: u64, thorough: bool) -> GeneratedLsp {
                     }
                     | 1 => Msg::Hover { doc, character: rng.range(3, 6) as u32 },
                     | 2 => Msg::Symbols { doc },
+                    | 3 => Msg::References { doc, character: rng.range(3, 30) as u32, declaration: rng.chance(1, 2) },
                     | _ => Msg::Tokens { doc },
                 }
             } else {
-                match rng.weighted(&[10, 2, 1, 2, 4, 2, 2, 1]) {
+                match rng.weighted(&[10, 2, 1, 2, 4, 2, 2, 1, 2, 1]) {
                     | 0 => {
                         version[doc] += 1;
                         Msg::Change { doc, version: version[doc], text: fresh(&mut rng, doc) }
@@ -305,7 +332,9 @@ pub fn generate(seed: u64, thorough: bool) -> GeneratedLsp {
                     | 4 => Msg::Hover { doc, character: rng.range(3, 6) as u32 },
                     | 5 => Msg::Symbols { doc },
                     | 6 => Msg::Definition { doc, character: rng.range(3, 30) as u32 },
-                    | _ => Msg::Tokens { doc },
+                    | 7 => Msg::Tokens { doc },
+                    | 8 => Msg::References { doc, character: rng.range(3, 30) as u32, declaration: rng.chance(1, 2) },
+                    | _ => Msg::Formatting { doc },
                 }
             };
             burst.push(message);
@@ -364,6 +393,15 @@ fn wire(world: &Path, id: &mut i64, message: &Msg) -> Value {
         ),
         | Msg::Symbols { doc } => request("textDocument/documentSymbol", json!({"textDocument": text_document(*doc)})),
         | Msg::Tokens { doc } => request("textDocument/semanticTokens/full", json!({"textDocument": text_document(*doc)})),
+        | Msg::References { doc, character, declaration } => request(
+            "textDocument/references",
+            json!({"textDocument": text_document(*doc), "position": {"line": 0, "character": character},
+                   "context": {"includeDeclaration": declaration}}),
+        ),
+        | Msg::Formatting { doc } => request(
+            "textDocument/formatting",
+            json!({"textDocument": text_document(*doc), "options": {"tabSize": 2, "insertSpaces": true}}),
+        ),
     }
 }
 
@@ -437,6 +475,7 @@ struct Wire {
     reader_waker: Option<Waker>,
     short_reads: u64,
     short_writes: u64,
+    logs: u64,
     released: usize,
     /// (frames seen when the burst was released) per burst
     release_points: Vec<usize>,
@@ -519,6 +558,12 @@ impl tokio::io::AsyncWrite for FrameCollector {
             }
             let body: Value = serde_json::from_slice(&wire.partial[start..start + length]).expect("frame body is JSON");
             wire.partial.drain(..start + length);
+            // log messages after the handshake (e.g. "skipped formatting ...") accompany an answer,
+            // they are not one: kept apart so that every script message has exactly one frame
+            if body["method"] == "window/logMessage" && wire.frames.len() >= 2 {
+                wire.logs += 1;
+                continue;
+            }
             wire.frames.push(body);
             completed = true;
         }
